@@ -234,6 +234,7 @@ DEVIATIONS = [
     "ActivateEvicted",
     "InitRetryOnClosed",
     "MuxCancelCorrupts",
+    "MuxIdleWhileUsersWait",
 ]  # same order as AllDevs in MCPoolTrace.tla
 
 
